@@ -21,7 +21,10 @@ Open Scope N_scope.
 (* ---- blocks -------------------------------------------------------------- *)
 
 (* bhv: header class  0 good, 1 bad signature, 2 bad consensus field, 3 future
-   bbv: body class    0 good, 1 body/tx-root mismatch, >=2 state/receipt/gas mismatch
+   bbv: body class    0 good, 1 body/tx-root mismatch (the body does not execute either),
+                      5 tx root only: the header commits to a wrong transaction root, body and all
+                        other roots are consistent (only ValidateBody's tx-root test sees it),
+                      other: state / receipt root / bloom / gas-used mismatch (ValidateState fails)
    broot: the state root the header claims; bid: the block hash (0 = no hash) *)
 Record block := mkB { bid : N; bpar : N; bnum : N; broot : N; btxs : list N; bhv : N; bbv : N }.
 
@@ -193,7 +196,7 @@ Definition validate_body (d : disk) (b : block) : err :=
   if known then EKnown
   else if negb (if bnum b =? 0 then false else has_block_and_state t d (bpar b) (bnum b - 1)) then
     (if has_block d (bpar b) then EPruned else EUnknownAnc)
-  else if bbv b =? 1 then EBadBody else ENone.
+  else if (bbv b =? 1) || (bbv b =? 5) then EBadBody else ENone.
 
 (* ---- reorg ---------------------------------------------------------------- *)
 
@@ -299,7 +302,8 @@ Fixpoint vasc_loop (s : st) (first : N) (prev : block) (chain : list block) : st
     if (lb <? first) && (match get_header_by_number t d lb with None => true | Some _ => false end) then (s, EPanic)
     else if negb ((bnum prev + 1 =? bnum b) && (bid prev =? bpar b)) then (s, EUnknownAnc)
     else if (bhv b =? 1) || (bhv b =? 2) then (s, EBadHeader)       (* verifySignature, consensus field *)
-    else if negb (bbv b =? 0) then (s, EBadState)
+    (* Process + ValidateState only: the transaction root is not compared here *)
+    else if negb ((bbv b =? 0) || (bbv b =? 5)) then (s, EBadState)
     else vasc_loop (if has_block d (bid b) then s else write_block b s) first b r
   end.
 
